@@ -665,7 +665,9 @@ class C07(Spec):
     )
     assumptions = (
         "completeness / no-duplicates are compared only on well-formed problems: every AllocationPack has at least one "
-        "channel and the channel formats within one pack are distinct (what validate_structure guarantees); the real "
+        "channel and the channel formats within one pack are distinct (distinctness follows from "
+        "_validate_pack_channel_multitree: C06 allocWF0_of_multitree / C14 allocProblem_wf; '>= 1 channel' is not "
+        "validated, such packs are never allocated: selectPackMapping_dropEmpty); the real "
         "code is also run at the excluded points and what happens is recorded in the distribution (not a failure)",
         "all AllocationPack / AllocationTrack objects in the input lists are distinct objects (WF.packs_nodup, "
         "WF.tracks_nodup: hypotheses of alloc_nodup; the real code is run with a repeated object and the duplicates it "
@@ -865,7 +867,14 @@ REGISTRY = dict(
     "equals the model's (exhaustive small universe + uniform + solution-seeded problems up to 8 tracks).",
     note="Trusted: Lean kernel, hand transliteration + correspondence harness, rendering of the docstring as Valid "
     "(cross-checked against the Python brute force). Quantifier limits (WF): packs with >= 1 channel and distinct "
-    "channel formats per pack, distinct pack/track objects - what validate_structure and _PackAllocator guarantee; "
+    "channel formats per pack, distinct pack/track objects. Where WF comes from for the problems item selection "
+    "builds is derived in C06 (Earverif.Adm.allocWF_of_multitree / allocWF0_of_multitree, Props/C06.lean): distinct "
+    "channel formats per AllocationPack from the success condition of _validate_pack_channel_multitree "
+    "(multitreeOK, compared with the real validation on every C06 run; C14 proves the same from its model of the "
+    "dfs: Validate.allocProblem_wf), distinct pack/track objects by construction in _PackAllocator; '>= 1 channel' is "
+    "NOT guaranteed by validate_structure (an audioPackFormat without channels passes it) - allocate_packs never "
+    "allocates such a pack (PackAlloc.selectPackMapping_dropEmpty), so C06/C14 apply the theorems to the problem "
+    "without them and uniqueness is among allocations that use no channel-less pack; "
     "at the excluded points the real code reports an ambiguity as unique / reports duplicates (recorded, not alarmed). "
     "'Each channel exactly once' is read as 'in pack.channels order', which is what the code returns.",
     technique="Lean 4 invariant proofs over the recursive search (soundness: accounting invariant; completeness: "
